@@ -31,8 +31,9 @@ def log(*a):
 
 
 class Ctx:
-    def __init__(self, prop, tier, seed):
+    def __init__(self, prop, tier, seed, ext=False):
         self.prop, self.tier, self.seed = prop, tier, seed
+        self.ext = ext            # extension module (behaviour outside the listed properties): evidence_ext/, EXT- lines
         self.t0 = time.time()
         base = "/dev/shm" if os.path.isdir("/dev/shm") and os.access("/dev/shm", os.W_OK) else "/var/tmp"
         self.scratch = tempfile.mkdtemp(prefix=f"verif-{prop}-", dir=base)
@@ -208,10 +209,11 @@ class Ctx:
             cov["notes"] = self.notes
         ev = dict(property_id=self.prop, tier=self.tier, seed=self.seed, level=level, coverage=cov,
                   assumptions=assumptions, wall_s=round(wall, 1), violations=len(self.violations))
-        os.makedirs(os.path.join(VERIF, "evidence"), exist_ok=True)
-        json.dump(ev, open(os.path.join(VERIF, "evidence", self.prop + ".json"), "w"), indent=1, sort_keys=True)
+        evdir = os.path.join(VERIF, "evidence_ext" if self.ext else "evidence")
+        os.makedirs(evdir, exist_ok=True)
+        json.dump(ev, open(os.path.join(evdir, self.prop + ".json"), "w"), indent=1, sort_keys=True)
         for k, v in sorted(self.known_hits.items()):
-            print(f"KNOWN-FINDING: property={self.prop} {k}: {v['f']['what']} (met {v['n']}x this run)")
+            print(f"{'EXT-' if self.ext else ''}KNOWN-FINDING: property={self.prop} {k}: {v['f']['what']} (met {v['n']}x this run)")
         if self.violations:
             rd = os.path.join(VERIF, "replay", self.prop)
             os.makedirs(rd, exist_ok=True)
@@ -226,7 +228,7 @@ class Ctx:
                 p = os.path.join(rd, f"violation-{self.tier}-{i}.json")
                 json.dump(dict(property=self.prop, signature=vs[0]["sig"], what=vs[0]["what"], count=len(vs),
                                cases=[x["replay"] for x in vs[:5]]), open(p, "w"), indent=1)
-                print(f"VIOLATION property={self.prop} replay={p}  # {vs[0]['what']} ({len(vs)} cases)")
+                print(f"{'EXT-DISAGREEMENT module' if self.ext else 'VIOLATION property'}={self.prop} replay={p}  # {vs[0]['what']} ({len(vs)} cases)")
             print(f"[check] {self.prop} {self.tier}: {len(self.violations)} disagreements in {len(seen)} signatures, wall {wall:.0f}s", file=sys.stderr)
             return 1
         print(f"OK property={self.prop} tier={self.tier} seed={self.seed} states={cov['states']} traces={cov['traces_validated_against_impl']} wall={wall:.0f}s")
@@ -283,7 +285,7 @@ def write_ndjson(path, rows):
             f.write(json.dumps(r, separators=(",", ":"), ensure_ascii=True) + "\n")
 
 
-def main(families):
+def main(families, ext=False):
     import argparse
     ap = argparse.ArgumentParser()
     ap.add_argument("prop")
@@ -293,7 +295,7 @@ def main(families):
     if a.prop not in families:
         print(f"unknown property {a.prop}", file=sys.stderr)
         return 2
-    ctx = Ctx(a.prop, a.tier, a.seed)
+    ctx = Ctx(a.prop, a.tier, a.seed, ext=ext)
     try:
         return families[a.prop](ctx)
     except Infra as e:
